@@ -14,7 +14,9 @@ from .corpus import Def, R, T, Var
 from .exec import Agg, Cell, EngineError, Exec, Panic, Ref, SrcSlice, U, Violation, as_bv, bvv, s_and, s_not, simp
 from .joint import canon
 
-OPS = ['next', 'bump1', 'clone_ahead', 'morph_roundtrip', 'morph_next_back', 'spanned_step']
+OPS = ['next', 'bump1', 'clone_ahead', 'morph_roundtrip', 'morph_next_back', 'spanned_step', 'bump_rest']
+OPS_STR = [0, 1, 2, 3, 4, 5]
+OPS_BYTES = [0, 1, 6, 2]
 
 HIST_EXTRA = '''
 pub mod hist {
@@ -28,6 +30,9 @@ pub mod hist {
     pub fn set_extras_a(l: &mut Lexer<'static, A>, v: usize) { l.extras = v; }
     pub fn extras_a(l: &Lexer<'static, A>) -> usize { l.extras }
     pub fn extras_b(l: &Lexer<'static, B>) -> usize { l.extras }
+    pub type C = super::hist_c::Tok;
+    pub fn set_extras_c(l: &mut Lexer<'static, C>, v: usize) { l.extras = v; }
+    pub fn extras_c(l: &Lexer<'static, C>) -> usize { l.extras }
 }
 '''
 
@@ -36,7 +41,8 @@ def hist_defs():
     a = Def('hist_a', skips=[R(' +')], extras='usize', variants=[Var('Word', [R('[a-z]+')]), Var('Num', [R('[0-9]+')]),
                                                                   Var('E', [T('é')])])
     b = Def('hist_b', extras='usize', variants=[Var('Any', [R('[a-z0-9 ]')]), Var('Ab', [T('ab')])])
-    return [a, b]
+    c = Def('hist_c', utf8=False, skips=[R(b' +')], extras='usize', variants=[Var('Word', [R(b'[a-z]+')]), Var('Hi', [R(b'[\x80-\xFF]')])])
+    return [a, b, c]
 
 
 def lexer_state(ex, cell):
@@ -52,10 +58,13 @@ def task_history(pl):
     N = pl['N']
     partial = pl['partial']
     ex = Exec(prog, N, time_budget=pl.get('budget'))
-    ex.base.append(lexcheck.as_b(lexcheck.valid_utf8(ex)))
+    is_bytes = pl.get('bytes', False)
+    if not is_bytes:
+        ex.base.append(lexcheck.as_b(lexcheck.valid_utf8(ex)))
     lexcheck.install_hooks(ex)
     out = dict(leaves=0, failures=[], ops=ops, kinds={})
-    A, B, H = 'corpus::hist_a::', 'corpus::hist_b::', 'corpus::hist::'
+    A, B, H = ('corpus::hist_c::' if pl.get('bytes') else 'corpus::hist_a::'), 'corpus::hist_b::', 'corpus::hist::'
+    SFX = 'c' if pl.get('bytes') else 'a'
 
     def fail(what, cond=None):
         if len(out['failures']) < 6:
@@ -88,7 +97,7 @@ def task_history(pl):
 
     def body(ex):
         lex = Cell(ex.call_root(A + ('h_new_partial' if partial else 'h_new'), [ex.source()]))
-        ex.call_root(H + 'set_extras_a', [Ref(lex, ()), 41])
+        ex.call_root(H + 'set_extras_' + SFX, [Ref(lex, ()), 41])
         trace = []
         for i, op in enumerate(ops):
             name = OPS[op]
@@ -100,7 +109,7 @@ def task_history(pl):
                 st = lexer_state(ex, lex)
                 e = st['token_end']
                 # only in-range bumps are part of the property's histories
-                ok = lexcheck.is_boundary_term(ex, e + 1) if isinstance(e, int) else None
+                ok = (True if is_bytes else lexcheck.is_boundary_term(ex, e + 1)) if isinstance(e, int) else None
                 if ok is None:
                     raise EngineError('symbolic token_end in history')
                 inr = simp(z3.ULE(bvv(e + 1, U), ex.len))
@@ -111,6 +120,17 @@ def task_history(pl):
                     if st2['token_end'] != e + 1 or st2['token_start'] != st['token_start']:
                         fail(f'bump(1) moved the span from {st["token_start"]}..{e} to {st2["token_start"]}..{st2["token_end"]}')
                 trace.append('bump')
+            elif name == 'bump_rest':
+                st = lexer_state(ex, lex)
+                rem = ex.call_root(A + 'h_remainder', [lref])
+                n = ex.concretize(rem.len, 'remainder length', limit=ex.N + 2)
+                ex.call_root(A + 'h_bump', [lref, n])      # in range by construction: must not panic
+                st2 = lexer_state(ex, lex)
+                if st2['token_end'] != st['token_end'] + n or st2['token_start'] != st['token_start']:
+                    fail(f'bump(remainder().len()) moved the span to {st2["token_start"]}..{st2["token_end"]}')
+                if ex.check(simp(as_bv(st2['token_end'], U) != ex.len)):
+                    fail('after bump(remainder().len()) the span does not end at the end of the source')
+                trace.append('bump_rest')
             elif name == 'clone_ahead':
                 before = canon(lex.val)
                 c = Cell(ex.call_root(A + 'h_clone', [lref]))
@@ -163,7 +183,7 @@ def task_history(pl):
                         fail(f'spanned() yields {cx}, manual iteration {exp}')
                 trace.append(cy)
             check_accessors(lex, f'op {i} ({name})')
-            ext = ex.call_root(H + 'extras_a', [Ref(lex, ())])
+            ext = ex.call_root(H + 'extras_' + SFX, [Ref(lex, ())])
             if ext != 41:
                 fail(f'extras changed to {ext} after op {i} ({name})')
             st = lexer_state(ex, lex)
@@ -196,12 +216,17 @@ def c14(tier, seed):
     defs = hist_defs()
     cfgs = ['tc-unsafe'] if tier == 'quick' else ['tc-unsafe', 'sm-safe']
     progs, times = pipeline.build_programs('hist-C14', defs, cfgs, extra=HIST_EXTRA)
-    seqs = list(itertools.product(range(len(OPS)), repeat=K))
+    seqs = list(itertools.product(OPS_STR, repeat=K))
+    seqs_b = list(itertools.product(OPS_BYTES, repeat=K))
     payloads = []
     for c in cfgs:
         for si, ops in enumerate(seqs):
             partial = (si % 5 == 4)      # every fifth history runs on a partial lexer (is_prefix must survive morph/clone)
             payloads.append(dict(key=f'{c}/{"".join(map(str, ops))}', mir=progs[c], ops=ops, N=N, partial=partial, budget=300))
+        for si, ops in enumerate(seqs_b):
+            payloads.append(dict(key=f'{c}/bytes/{"".join(map(str, ops))}', mir=progs[c], ops=ops, N=N, partial=(si % 7 == 6),
+                                 budget=300, bytes=True))
+    seqs = seqs + seqs_b
     random.Random(seed).shuffle(payloads)
     results = pipeline.run_tasks(task_history, payloads)
     rc = 0
